@@ -8,7 +8,7 @@ from ._sim_common import frac, summarize
 ID = "C05"
 RULE = ("Hypothesis generates whole configurations (1-3 markets, optional index market, 1-2 groups of scripted agents with "
         "generated order programs incl. self-crossing and market orders, optional scripted HFT agents and traced built-in "
-        "agents, 1-3 sessions with generated flags/caps) and a runner seed; the real SequentialRunner runs them. The "
+        "agents, 1-3 sessions with generated flags/caps, in half of the runs a TradingHaltRule on some markets) and a runner seed; the real SequentialRunner runs them. The "
         "endowment captured after setup is folded (Fraction arithmetic) with the distinct ExecutionLogs in trace order and "
         "compared with EVERY agent's cash/shares at every step-begin/step-end record and inside every executed_order "
         "callback, plus totals per market. Non-trivial = run with >=1 multi-fill round and >=1 self-trade, or >=3 trading "
@@ -27,7 +27,7 @@ def check_case(case):
 
 def _strategy(tier):
     big = tier == "thorough"
-    return sim_cases(builtin=True, steps=(1, 20) if big else (1, 8), agents_per_group=(1, 5), n_markets=(1, 4) if big else (1, 3))
+    return sim_cases(builtin=True, steps=(1, 20) if big else (1, 8), agents_per_group=(1, 5), n_markets=(1, 4) if big else (1, 3), rules=True)
 
 
 PARTS = {"sim": {"check": check_case, "strategy": _strategy, "budget": {"quick": 3000, "thorough": 40000}}}
